@@ -212,7 +212,10 @@ def get_godambe(func_ex, grid_pts, all_boot, p0, data, eps, log=False,
     # Cache evaluations of the frequency spectrum inside our hessian/J 
     # evaluation function
     def func(params, data, theta_adjust=1):
-        key = (func_ex.__hash__(), tuple(params), tuple(ns), tuple(grid_pts))
+        # Key on the function object itself (not its hash, which is its address):
+        # holding a reference prevents a later function from reusing the address
+        # and being served another model's cached spectra.
+        key = (func_ex, tuple(params), tuple(ns), tuple(grid_pts))
         if key not in cache:
             cache[key] = func_ex(params, ns, grid_pts)
         # theta_adjust deals with bootstraps that need  different thetas
